@@ -125,7 +125,10 @@ impl<'a> CodeBody<'a> {
             if let Some(a) = b.completion_value.take() {
                 b.terminator = Some(Terminator::Return(a));
             } else {
-                b.terminator = if reachable[i] {
+                // a non-empty block keeps its incoming "br"s, so it can still be entered
+                b.terminator = if reachable[i]
+                    || (!b.statements.is_empty() && !incoming_map[i].is_empty())
+                {
                     let end = byte_range.end; // implicit return should be at end
                     Some(Terminator::Return(Operand::Void(Void::new(end..end))))
                 } else {
